@@ -88,6 +88,7 @@ def run(ctx, rep):
     _PRS.number(rep, lib)
     _PRS.escapes(rep, lib)
     _PRS.ws_struct(rep, lib)
+    _PRS.input_decides(rep, lib)
     # ------------------------------------------------------------ FRESH-CONTEXT
     r = rep.rule("C11-FRESH-CONTEXT", "every record is processed in a Context built by Context::new_with_input in "
                  "the same loop iteration from that iteration's parsed value", floor=1, analysis="A2 + A4 in read_input")
@@ -156,18 +157,37 @@ def get_pure(rep, lib):
 def _writes_through_self(lib, st, b, nf, depth):
     """(description, where) of a write through self in body b (self = local 1), following local callees that are
     handed the whole `&mut self`; None if there is none."""
+    # locals that alias the whole stage: self, `&mut *self` reborrows and their copies (an inlined `&mut self`
+    # helper works on such an alias)
+    alias = {1}
     whole = set()
+    grew = True
+    while grew:
+        grew = False
+        for bb, idx, place, rv, stmt in b.assignments():
+            if place["p"]:
+                continue
+            if rv["k"] == "ref" and rv["place"]["l"] in alias and rv["place"]["p"] == ["deref"]:
+                if rv["mutbl"] and place["l"] not in whole:
+                    whole.add(place["l"])
+                if place["l"] not in alias:
+                    alias.add(place["l"])
+                    grew = True
+            if rv["k"] == "use" and rv["op"].get("k") in ("move", "copy") and not rv["op"]["place"]["p"] \
+                    and rv["op"]["place"]["l"] in alias and rv["op"]["place"]["l"] != 1 and place["l"] not in alias:
+                alias.add(place["l"])
+                if rv["op"]["place"]["l"] in whole:
+                    whole.add(place["l"])
+                grew = True
     for bb, idx, place, rv, stmt in b.assignments():
-        if place["l"] == 1 and place["p"] and place["p"][0] == "deref":
+        if place["l"] in alias and place["p"] and place["p"][0] == "deref":
             fld = [p for p in place["p"][1:] if p.startswith("f")]
             if not fld or fld[0] != nf:
                 return ("assignment to self.%s" % _fname(st, fld[0] if fld else "?"), b.where(bb))
-        if rv["k"] == "ref" and rv["mutbl"] and rv["place"]["l"] == 1 and rv["place"]["p"][:1] == ["deref"]:
+        if rv["k"] == "ref" and rv["mutbl"] and rv["place"]["l"] in alias and rv["place"]["p"][:1] == ["deref"]:
             fld = [p for p in rv["place"]["p"][1:] if p.startswith("f")]
             if fld and fld[0] != nf:
                 return ("&mut borrow of self.%s" % _fname(st, fld[0]), b.where(bb))
-            if not fld:
-                whole.add(place["l"])
     if whole:
         for c in b.calls:
             if not any(a.get("k") in ("copy", "move") and a["place"]["l"] in whole for a in c.args):
